@@ -277,7 +277,7 @@ pub fn run_c12(ctx: &mut Ctx) {
         ctx,
         "shallow_search_vs_reference_minimax",
         || rep_strategy(60, false),
-        t.pick(6_400, 40_000),
+        t.pick(6_400, 160_000),
         |r, st| {
             let Some((start, moves)) = rep_moves(r) else { return Ok(()) };
             let Ok(case) = make_case(&start, &moves) else {
@@ -759,7 +759,7 @@ pub fn run_c11(ctx: &mut Ctx) {
         ctx,
         "near_mate_constructions",
         mate_strategy,
-        t.pick(15_000, 120_000),
+        t.pick(15_000, 400_000),
         move |r, st| {
             let Some((start, moves)) = mate_case_moves(r).map(root_only) else {
                 st.label("recipe_discarded");
@@ -786,7 +786,7 @@ pub fn run_c11(ctx: &mut Ctx) {
         ctx,
         "mate_only_by_knight_promotion",
         underpromo_strategy,
-        t.pick(18_000, 100_000),
+        t.pick(18_000, 300_000),
         move |r, st| {
             let Some(p) = underpromo_position(r) else {
                 st.label("recipe_discarded_not_an_underpromotion_mate");
@@ -809,7 +809,7 @@ pub fn run_c11(ctx: &mut Ctx) {
         ctx,
         "endgame_and_game_walks",
         || rep_strategy(60, true),
-        t.pick(4_500, 30_000),
+        t.pick(4_500, 100_000),
         move |r, st| {
             let Some((start, moves)) = rep_moves(r).map(root_only) else { return Ok(()) };
             let Ok(case) = make_case(&start, &moves) else { return Ok(()) };
@@ -943,7 +943,7 @@ pub fn run_c10(ctx: &mut Ctx) {
         ctx,
         "repetition_counts_after_position",
         rep_heavy,
-        t.pick(320_000, 2_400_000),
+        t.pick(320_000, 8_000_000),
         |r, st| {
             let Some((start, moves)) = rep_moves(r) else { return Ok(()) };
             st.sample(|| case_json(&start, &moves));
@@ -964,7 +964,7 @@ pub fn run_c10(ctx: &mut Ctx) {
         ctx,
         "draw_by_repetition_available_in_search",
         lost_side,
-        t.pick(4_800, 30_000),
+        t.pick(4_800, 200_000),
         |r, st| {
             let Some((start, moves)) = rep_moves(r) else { return Ok(()) };
             let Ok(case) = make_case(&start, &moves) else { return Ok(()) };
